@@ -115,8 +115,9 @@ class Check(CheckBase):
     title = "board-state round trips"
     bounds = {"value": "all signed 32-bit values (symbolic)", "slot": "0..28 (symbolic)", "RAM": "arbitrary initial contents (z3 array)",
               "motor request": "r1, r2 symbolic in [-2^31, 2^31]; also after one earlier request (0..2; thorough 0..5) on the same object followed by an arbitrary change of the board state, and (thorough) after two earlier requests (0..2)", "prior board state": "mode 1..5, motor 1/2 on/off, single-motor option on/off: all symbolic",
-              "nickname": "0..4 symbolic characters over letters, digits, space, underscore, comma"}
+              "nickname": "0..4 symbolic characters, each any printable ASCII character (32..126)"}
     outside = ["the real firmware (the board model above is the trusted base)", "values outside int32 (OverflowError in Python)",
+               "nicknames containing the text 'Err:' (reserved for device error replies by the framing rule of C05: write_nickname('Err:') succeeds but the name cannot be read back), nicknames longer than 4 characters or with control characters",
                "sequences of operations: each operation is proved from an arbitrary prior board state, so sequences follow by induction"]
     stubs = ["int.to_bytes / int.from_bytes as div/mod terms honouring byteorder/signed (differentially tested each run)",
              "simulated board (class Board)", "decimal rendering of integers: tokens"]
@@ -241,9 +242,14 @@ class Check(CheckBase):
         for i in range(n):
             c = run.fresh_int("nick%d" % i)
             run.inputs["nick%d" % i] = c
-            run._add(z3.Or([c == ord(x) for x in "abzAZ019 _,-"]))
+            run._add(z3.And(c >= 32, c <= 126))          # any printable ASCII character
             cs.append(c)
         nick = SymStr(cs)
+        # the framing rule of C05 reserves the text "Err:" for error replies: a nickname containing it cannot be
+        # told from a device error by design, so it is outside this property (stated in the evidence)
+        if n >= 4:
+            t = nick.contains_term("Err:")
+            run.assume(z3.Not(t) if not isinstance(t, bool) else (not t))
         port.sym = True
         ok = obj.write_nickname(nick)
         obj.name = None
